@@ -37,6 +37,8 @@ TEXT_FAULTS = [
     ("slot_reference_out_of_range_constraint", "sub", "cA > cB / _ {@7.user1 == 1};", "cA > cB / _ {@1.user1 == 1};", "", "", {"2140"}),
     ("movement_attr_in_substitution", "sub", "cA > cB {shift.x = 5};", "cA > cB {user1 = 5};", "", "", {"3121"}),
     ("advance_in_substitution", "sub", "cA > cB {advance.x = 5};", "cA > cB {user1 = 5};", "", "", {"3121"}),
+    ("readonly_attr_collision_fix_x", "pos", "cA cB {collision.fix.x = 100m};", "cA cB {shift.x = 100m};", "", "", {"3120"}),
+    ("readonly_attr_collision_fix_y_plus", "pos", "cA cB {collision {fix {y += 5m}}};", "cA cB {shift {y += 5m}};", "", "", {"3120"}),
     ("glyph_metric_as_target", "pos", "cA {advancewidth = 5};", "cA {advance.x = 5};", "", "", {"1165"}),
     ("class_name_as_attribute", "sub", "cA > cB {cC = 5};", "cA > cB {user1 = 5};", "", "", {"1165"}),
     ("linebreak_in_rhs", "sub", "cA > #;", "cA > cB;", "", "", {"3138"}),
